@@ -439,6 +439,12 @@ Definition accepted_overlap (k : tkey) (f l : Z) (o : op) : bool :=
   | Learn k' a b raw _ => tkey_eqb k' k && spec_payload_ok a b raw && ranges_overlap (a + 1) b f l
   | Maintain _ _ _ _ => false
   end.
+(* an accepted payload for table k whose range contains tok *)
+Definition covering_learn (k : tkey) (tok : Z) (o : op) : bool :=
+  match o with
+  | Learn k' a b raw _ => tkey_eqb k' k && spec_payload_ok a b raw && ((a <? tok) && (tok <=? b))
+  | Maintain _ _ _ _ => false
+  end.
 (* apply the maintenance events of [post] to an entry *)
 Definition spec_maintain_all (k : tkey) (post : list op) (e : entry) : option entry :=
   fold_left (fun cur o => match o, cur with
